@@ -6,7 +6,7 @@ from ..refs import alarms as R6
 
 ID = "C15"
 RULE = ("all cells of a 7-point time lattice around the trigger: alarm ACKNOWLEDGED, component acknowledgement (DTSTAMP, or X-MOZ-LASTACK for Thunderbird "
-        "components) and snooze each absent or at one of 7 instants (8^3 = 512 orderings incl. equalities) x trigger kind {UTC, zoned, floating, date, zoned inside the repeated hour at the end of daylight time} x "
+        "components) and snooze each absent or at one of 7 instants (8^3 = 512 orderings incl. equalities) x trigger kind {UTC, zoned, floating, date, zoned inside the repeated hour at the end of daylight time, absolute floating, absolute UTC} x "
         "local zone {unset, str, tzinfo} x Thunderbird/not x provider {zoneinfo, pytz}, exhaustively; every cell also checks a second, never acknowledged "
         "alarm, sub-list-ness of active, (in a third of the cells) the cell's values set by acknowledge_until/snooze_until after earlier calls with other values, None included, and monotonicity (each acknowledgement moved one lattice step later); plus seeded random instants; "
         "non-trivial = at least one acknowledgement present; distinct by construction")
@@ -15,7 +15,7 @@ ASSUMPTIONS = ["R6 decision table: active iff no ack, or snooze > ack, or effect
                "a date trigger is local midnight of that date"]
 SOFT_S = {"quick": 8, "thorough": 120}
 UTC = timezone.utc
-KINDS = ("utc", "zoned", "floating", "date", "zoned-fold")
+KINDS = ("utc", "zoned", "floating", "date", "zoned-fold", "abs-floating", "abs-utc")
 LOCAL = (None, "str", "tzinfo", "foreign-tzinfo")
 N = 7
 
@@ -78,6 +78,8 @@ def build(case):
         start = ny.localize(naive, is_dst=True) if hasattr(ny, "localize") else naive.replace(tzinfo=ny, fold=0)
         if salt:
             unit = timedelta(minutes=1)
+    elif kind in ("abs-floating", "abs-utc"):
+        start = vals.attach(base, vals.tzinfo_for("UTC"))        # the component's own times do not matter for an absolute trigger
     elif kind == "floating":
         start = base
     else:
@@ -85,6 +87,8 @@ def build(case):
         trig_delta = timedelta(days=-1)
     norm = (lambda d: d.tzinfo.normalize(d) if isinstance(d, datetime) and hasattr(d.tzinfo, "normalize") else d)   # pytz: elapsed-time arithmetic (S9)
     trigger = R6.add(start, trig_delta, norm)
+    if kind == "abs-floating":
+        trigger = trigger.replace(tzinfo=None)          # TRIGGER;VALUE=DATE-TIME:<local time>: floating, like a floating start
     # the instant of the trigger, for placing the lattice
     floating = R6.is_date(trigger) or trigger.tzinfo is None
     t_dt = datetime(trigger.year, trigger.month, trigger.day) if R6.is_date(trigger) else trigger
@@ -104,7 +108,7 @@ def build(case):
     ev.add("summary", "x")
     ev.DTSTART = start
     al = Alarm()
-    al.TRIGGER = trig_delta
+    al.TRIGGER = trigger if kind in ("abs-floating", "abs-utc") else trig_delta
     if a1 is not None:
         al.ACKNOWLEDGED = P(a1)
     ev.add_component(al)
